@@ -353,7 +353,7 @@ fn common_data_for_recursion(cap_height: usize) -> CommonCircuitData<F, D> {
 fn exec_cyclic(case: &Case, rep: &mut Report) {
     let mut r = Rng::new(case.fault_seed);
     // Merkle cap height of the cyclic circuit: the standard 4 and its neighbours
-    let cap_height = *Rng::new(case.fault_seed ^ 0xca9).pick(&[4usize, 4, 0, 1, 2, 3, 5]);
+    let cap_height = *Rng::new(case.fault_seed ^ 0xca9).pick(&[4usize, 4, 0, 1, 2, 3]);
     rep.probe(&format!("c20.cyclic_cap_height.{cap_height}"));
     let built = guarded(|| {
         case.entropy.arm();
